@@ -233,6 +233,16 @@ _GIT_ENV = dict(GIT_AUTHOR_NAME="t", GIT_AUTHOR_EMAIL="t@e", GIT_COMMITTER_NAME=
                 GIT_COMMITTER_EMAIL="t@e", GIT_CONFIG_GLOBAL="/dev/null", GIT_CONFIG_SYSTEM="/dev/null")
 
 
+LAST_STDERR = ""          # what the last in-process run logged (bumpver logs `Old Version:` / `New Version:` there)
+
+
+def announced_version():
+    """the `New Version:` the last in-process run announced (None if it announced none)"""
+    import re as _re
+    m = _re.findall(r"New Version: (.*)", LAST_STDERR or "")
+    return m[-1].rstrip("\r") if m else None
+
+
 def run_cli(args, cwd, env=None, today=None):
     """Run `bumpver <args>` in-process through click's CliRunner.
     Returns (exit_code, stdout, exception-name-or-None)."""
@@ -253,7 +263,17 @@ def run_cli(args, cwd, env=None, today=None):
             runner = CliRunner(mix_stderr=False)
         except TypeError:
             runner = CliRunner()
+        # bumpver calls logging.basicConfig on every command, which only takes effect while the root logger has no handler: drop the
+        # handler of the previous in-process run (bound to that run's captured stderr) so that this run's log lines can be read
+        import logging
+        for h in list(logging.root.handlers):
+            logging.root.removeHandler(h)
         res = runner.invoke(bcli.cli, list(args), catch_exceptions=True)
+        global LAST_STDERR
+        try:
+            LAST_STDERR = res.stderr
+        except Exception:                       # click without separate stderr capture
+            LAST_STDERR = ""
         exc = None
         if res.exception is not None and not isinstance(res.exception, SystemExit):
             exc = impl_adapter.exc_name(res.exception)
